@@ -401,6 +401,21 @@ def cpython_sibling_inlined_comprehensions(tree):
                 for x in ast.walk(b):
                     if isinstance(x, ast.Name) and isinstance(x.ctx, ast.Load) and x.id in ta and x.id not in bbound:
                         return True, nested_scopes
+            # variant 3 (measured on 3.12.1 and 3.13.0): a *function* nested in the same scope, outside A, reads N as a free
+            # variable -> it is bound to A's (empty) cell: `def f(): [x for x in [1]]; g = lambda: x; g()` with x from
+            # further out raises NameError "cannot access free variable 'x'"
+            for sc in nested_scopes:
+                if id(sc) in inside_a or isinstance(sc, ast.ClassDef):
+                    continue
+                own = set()
+                if isinstance(sc, (ast.Lambda, ast.FunctionDef, ast.AsyncFunctionDef)):
+                    ar = sc.args
+                    own = {x.arg for x in ar.posonlyargs + ar.args + ar.kwonlyargs} | {y.arg for y in (ar.vararg, ar.kwarg) if y}
+                body = [sc.body] if isinstance(sc, ast.Lambda) else (sc.body if isinstance(sc, (ast.FunctionDef, ast.AsyncFunctionDef)) else [sc])
+                for part in body:
+                    for x in ast.walk(part):
+                        if isinstance(x, ast.Name) and isinstance(x.ctx, ast.Load) and x.id in ta and x.id not in own:
+                            return True, nested_scopes
         return False, nested_scopes
 
     todo = [list(ast.iter_child_nodes(tree))]
